@@ -154,14 +154,22 @@ static cbor_item_t* p_item(void) {
       if (r && c == 'n') cbor_mark_negint(r);
       return r;
     }
+    case 'f': case 'g': {   /* f(LEN) / g(LEN): a definite byte / text string whose *recorded* length is LEN (1-byte block); only for size computations */
+      p_eat('('); uint64_t len = p_num(); p_eat(')');
+      extern _cbor_malloc_t _cbor_malloc;
+      r = c == 'f' ? cbor_new_definite_bytestring() : cbor_new_definite_string();
+      if (c == 'f') cbor_bytestring_set_handle(r, _cbor_malloc(1), (size_t)len);
+      else { r->data = _cbor_malloc(1); r->metadata.string_metadata.length = (size_t)len; r->metadata.string_metadata.codepoint_count = 0; }  /* set_handle would scan LEN bytes */
+      return r;
+    }
     case 'b': return p_string(0);
     case 't': return p_string(1);
     case 'B': case 'T': {
       r = c == 'B' ? cbor_new_indefinite_bytestring() : cbor_new_indefinite_string();
       p_eat('[');
       while (*P != ']' && !perr) {
-        P++; /* b or t */
-        cbor_item_t* ch = p_string(c == 'T');
+        cbor_item_t* ch;
+        if (*P == 'f' || *P == 'g') ch = p_item(); else { P++; /* b or t */ ch = p_string(c == 'T'); }
         if (c == 'B') { if (!cbor_bytestring_add_chunk(r, ch)) perr = 2; } else { if (!cbor_string_add_chunk(r, ch)) perr = 2; }
         cbor_decref(&ch);
         if (*P == ',') P++;
@@ -483,5 +491,10 @@ int tree_op(int argc, char** w) {
   if (!strcmp(w[0], "ROUND") && argc == 2) { op_round(w[1]); return 1; }
   if (!strcmp(w[0], "RO") && argc == 2) { op_ro(w[1]); return 1; }
   if (!strcmp(w[0], "LN") && argc == 3) { op_ln(w[1], atoi(w[2])); return 1; }
+  if (!strcmp(w[0], "SIZES") && argc == 2) {   /* cbor_serialized_size of a skeleton (strings with recorded lengths only) */
+    cbor_item_t* it = parse_tree(w[1]);
+    if (!it) { printf("bad-tree\n"); return 1; }
+    printf("%zu\n", cbor_serialized_size(it)); cbor_decref(&it); return 1;
+  }
   return hist_op(argc, w);
 }
